@@ -142,13 +142,19 @@ def run_proc(cmd, cwd, env_extra=None, stdin=None, timeout=DEFAULT_TIMEOUT, clea
                 env[k] = v
     t0 = time.time()
     ru0 = resource.getrusage(resource.RUSAGE_CHILDREN)
-    try:
-        p = subprocess.Popen(r.cmd, cwd=cwd, env=env, stdin=subprocess.PIPE if stdin is not None else subprocess.DEVNULL,
-                             stdout=subprocess.PIPE, stderr=subprocess.PIPE, start_new_session=True)
-    except OSError as e:
-        r.rc = -1
-        r.err = ('spawn failed: %s' % e).encode()
-        return r
+    p = None
+    for attempt in range(40):
+        try:
+            p = subprocess.Popen(r.cmd, cwd=cwd, env=env, stdin=subprocess.PIPE if stdin is not None else subprocess.DEVNULL,
+                                 stdout=subprocess.PIPE, stderr=subprocess.PIPE, start_new_session=True)
+            break
+        except OSError as e:
+            # the binary cannot be started (e.g. another check is relinking the shared build at this moment): this says nothing about the
+            # property; wait for it, and if it stays away the case is a harness failure (exception -> exit 2), never a verdict
+            last = e
+            time.sleep(3)
+    if p is None:
+        raise RuntimeError('spawn failed: %s: %s' % (r.cmd[0], last))
     try:
         r.out, r.err = p.communicate(stdin, timeout=timeout)
     except subprocess.TimeoutExpired:
